@@ -275,7 +275,10 @@ class Outcome:
 
 # ---------------- engine ----------------
 class Engine:
+    _instances = []
+
     def __init__(self, prog, max_steps=20000, loop_bound=None):
+        Engine._instances.append(self)
         self.prog = prog
         self.solver = z3.Solver()
         self.nq = 0
@@ -285,6 +288,8 @@ class Engine:
         self.stat_paths = 0
         self.nhit = 0
         self.lastmodel = None
+        self.called = set()          # MIR functions executed (crate and shim crate)
+        self.modelled = set()        # external callees answered by a Python builtin
 
     # ---- solver
     def check(self, assumptions):
@@ -713,6 +718,7 @@ class Engine:
         raise Unsupported('method %s (head=%s trait=%s)' % (callee, head, trait))
 
     def push_call(self, st, f, args, dest, ret_bb):
+        self.called.add(f.name)
         loc = {n: st.new_cell() for n in f.locals}
         loc.setdefault(0, st.new_cell())
         assert len(args) == len(f.params), ('arity', f.name, len(args), len(f.params))
@@ -884,6 +890,7 @@ class Engine:
                 if term.target is None and False: pass
                 self.push_call(st, tgt, args, term.dest, term.target)
                 return 'ok'
+            self.modelled.add(strip_generics(callee)[:80])
             r = tgt(self, st, args, term.dest, term.target, callee=callee)
         return self.finish_builtin(st, fr, term, r, work, outs)
 
@@ -1153,6 +1160,11 @@ def bi_as_ptr_range(eng, st, args, dest, ret_bb, callee=''):
     v = vec_of(eng, st, r)
     return ('value', Agg('Range', (Ref(r.cell, r.path + (('i', S(0, 'usize')),)), Ref(r.cell, r.path + (('i', v.len),)))))
 
+def bi_as_ptr(eng, st, args, dest, ret_bb, callee=''):
+    r = args[0]
+    vec_of(eng, st, r)
+    return ('value', Ref(r.cell, r.path + (('i', S(0, 'usize')),)))
+
 def bi_range_contains(eng, st, args, dest, ret_bb, callee=''):
     rng = eng.deref(st, args[0]); x = eng.deref(st, args[1])
     while isinstance(x, Ref) and not isinstance(rng.f[0], Ref): x = eng.deref(st, x)
@@ -1192,7 +1204,8 @@ BUILTIN_METHODS = {
     ('Vec', 'reserve'): bi_vec_reserve, ('Vec', 'pop'): bi_vec_pop, ('SliceIter', 'next'): bi_sliceiter_next, ('SliceIter', 'next_back'): bi_sliceiter_next_back,
     ('Box', 'new_uninit'): bi_box_new_uninit, ('boxed', 'box_assume_init_into_vec_unsafe'): bi_box_into_vec, ('Opq', 'clone'): bi_opq_clone, ('Opq', 'eq'): bi_opq_eq,
     ('[Node<T>]', 'get'): bi_slice_get, ('[Node<T>]', 'get_mut'): bi_slice_get,
-    ('[Node<T>]', 'as_ptr_range'): bi_as_ptr_range, ('Range', 'contains'): bi_range_contains, ('mem', 'size_of'): bi_size_of,
+    ('[Node<T>]', 'as_ptr_range'): bi_as_ptr_range, ('Vec', 'as_ptr'): bi_as_ptr, ('Vec', 'as_mut_ptr'): bi_as_ptr, ('[Node<T>]', 'as_ptr'): bi_as_ptr,
+    ('Vec', 'as_ptr_range'): bi_as_ptr_range, ('Range', 'contains'): bi_range_contains, ('mem', 'size_of'): bi_size_of,
     ('[Node<T>]', 'iter'): bi_slice_iter_any, ('[Node<T>]', 'iter_mut'): bi_slice_iter_any, ('[Node<T>]', 'len'): bi_vec_len,
     ('Vec', 'as_mut_slice'): bi_identity, ('Vec', 'iter'): bi_slice_iter_any, ('Vec', 'iter_mut'): bi_slice_iter_any,
     ('NonZero', 'new'): bi_nonzero_new, ('NonZero', 'get'): bi_nonzero_get, ('NonZero', 'eq'): bi_prim_eq,
